@@ -25,6 +25,7 @@ Fixpoint dec_view (s : sexp) : view :=
       | 9, [Num id; c] => VCleanup id (dec_view c)
       | 10, [Num slot; c] => VAlloc (Z.to_nat slot) (dec_view c)
       | 11, [Num p; Num slot] => VItem (Z.to_nat p) (Z.to_nat slot)
+      | 12, [Num p] => VDynL (Z.to_nat p)
       | _, _ => VText
       end
   | _ => VText
